@@ -14,7 +14,8 @@ THEOREMS = ['C11.rust_instantiate_is_the_model', 'C11.rust_instantiate_text_is_i
             'C11.substS_preserves_eFresh', 'C11.pending_esubst_eFresh_sound', 'C11.pending_ssubst_sFresh_sound', 'C11.pending_esubst_sFresh_sound', 'C11.pending_ssubst_eFresh_sound', 'C11.pending_judgement_is_conservative',
             'C11.pos_ng_of_sFresh', 'C11.pending_ssubst_pos_ng_sound', 'C11.pending_esubst_pos_ng_sound', 'C11.polarity_flip_is_rejected',
             'C11.substE_comm', 'C11.substS_comm', 'C11.subst_comm_needs_fresh_plugs',
-            'C11.inst_id_of_concrete', 'C11.py_inst_id_of_concrete', 'C11.RShape_of_concrete', 'C11.rust_instantiate_text_id_of_concrete']
+            'C11.inst_id_of_concrete', 'C11.py_inst_id_of_concrete', 'C11.RShape_of_concrete', 'C11.rust_instantiate_text_id_of_concrete',
+            'C11.py_esubst_eliminates', 'C11.py_ssubst_eliminates', 'C11.py_esubst_idempotent', 'C11.py_ssubst_idempotent', 'C11.py_esubst_comm', 'C11.py_ssubst_comm']
 
 
 def to_npat_s(p):
